@@ -27,9 +27,13 @@ serialisable = None     # set from contracts.core
 
 
 class FileV(V):
+    _n = 0
+
     def __init__(self, path, mode):
         self.path = path      # z3 Val term
         self.mode = mode
+        FileV._n += 1
+        self.fid = "file:%d" % FileV._n   # key of the handle's logical content in State.ghost (buffered I/O)
 
     def __repr__(self):
         return f"File({self.path},{self.mode})"
@@ -82,7 +86,9 @@ class StdlibMixin:
             outs.append((y, Raise(ExcV(eng.exc_type("OSError"), {"errno": Const(13)}, label="OSError(EACCES)"))))
             self.fs_set(st, path, bytes_empty, "open-truncate")
             st.upd("Wr", path, st.sel("Wr", path) + 1)
-            outs.append((st, FileV(path, mode)))
+            f = FileV(path, mode)
+            st.ghost[f.fid] = bytes_empty
+            outs.append((st, f))
             return outs
         raise Unsupported("open mode " + repr(mode))
 
@@ -93,6 +99,10 @@ class StdlibMixin:
         return [(st, fn.recv)]
 
     def b_file___exit__(self, eng, st, fn, args, kwargs):
+        """Leaving the `with` closes the file: everything written through the handle is on disk now."""
+        f = fn.recv
+        if f.mode == "wb" and st.ghost.get(f.fid) is not None:
+            self.fs_set(st, f.path, st.ghost[f.fid], "close-flush")
         return [(st, Const(None))]
 
     def b_file_read(self, eng, st, fn, args, kwargs):
@@ -100,24 +110,29 @@ class StdlibMixin:
         return [(st, Z(st.sel("FS", f.path), "bytes", {"plain": True}))]
 
     def b_file_write(self, eng, st, fn, args, kwargs):
-        """write(b): appends b — or, at a crash / error, any prefix of it."""
+        """write(b) on a buffered file object: b joins the handle's logical content; on disk the file holds that
+        content up to SOME prefix of b (Python / the OS flush at their own pace) until the file is closed.
+        A failing write leaves any such prefix behind as well."""
         eng.note("[E-FS]")
         f = fn.recv
         blob = to_val(args[0])
-        cur = z3.simplify(st.sel("FS", f.path))
-        # intermediate state: any prefix of the blob may be what a crash / a failing write leaves behind
-        k = smt.fresh("prefix", IntS)
         concat = F("bytes_concat", Val, Val, Val)
-        mid = st.copy()
-        mid.assume(k >= 0, k <= bytes_len(blob), bytes_len(blob) >= 0)
-        mid.assume(z3.Implies(k == bytes_len(blob), bytes_prefix(blob, k) == blob))
-        mid.assume(z3.Implies(k == 0, bytes_prefix(blob, k) == bytes_empty))
-        self.fs_set(mid, f.path, z3.If(k == 0, cur, concat(cur, bytes_prefix(blob, k))), "write-partial")
-        mid.event("io-fault", "write")
-        mid.trace.append((("io-fault", "write"), True))
-        outs = [(mid, Raise(ExcV(eng.exc_type("OSError"), {"errno": Const(28)}, label="OSError(ENOSPC)")))]
-        full = z3.If(cur == bytes_empty, blob, concat(cur, blob))
-        self.fs_set(st, f.path, full, "write")
+        cur = st.ghost.get(f.fid)
+        if cur is None:
+            cur = z3.simplify(st.sel("FS", f.path))
+        full = blob if cur.eq(bytes_empty) else concat(cur, blob)
+        k = smt.fresh("flushed_prefix", IntS)
+        st.assume(k >= 0, k <= bytes_len(blob), bytes_len(blob) >= 0)
+        st.assume(z3.Implies(k == bytes_len(blob), bytes_prefix(blob, k) == blob))
+        st.assume(z3.Implies(k == 0, bytes_prefix(blob, k) == bytes_empty))
+        ondisk = z3.If(k == bytes_len(blob), full, z3.If(k == 0, cur, concat(cur, bytes_prefix(blob, k))))
+        self.fs_set(st, f.path, ondisk, "write-buffered")
+        bad = st.copy()
+        bad.ghost[f.fid] = ondisk           # nothing more reaches the disk through this handle
+        bad.event("io-fault", "write")
+        bad.trace.append((("io-fault", "write"), True))
+        outs = [(bad, Raise(ExcV(eng.exc_type("OSError"), {"errno": Const(28)}, label="OSError(ENOSPC)")))]
+        st.ghost[f.fid] = full
         outs.append((st, Iv(bytes_len(blob))))
         return outs
 
